@@ -6,11 +6,14 @@ package c05
 import (
 	"bytes"
 	"fmt"
+	"go/token"
 	"strings"
 	"testing"
 
 	"github.com/dave/dst"
 	"github.com/dave/dst/decorator"
+	"github.com/dave/dst/decorator/resolver/goast"
+	"github.com/dave/dst/decorator/resolver/guess"
 	"pgregory.net/rapid"
 
 	"verif/internal/h"
@@ -316,6 +319,8 @@ func checkExpr(t h.TB, c ExprCase) {
 			elems = append(elems, fmt.Sprintf("K%d: %d", i, i))
 		case "params":
 			elems = append(elems, fmt.Sprintf("a%d int", i))
+		case "qualified":
+			elems = append(elems, fmt.Sprintf("os.A%d", i))
 		default:
 			elems = append(elems, fmt.Sprintf("e%d", i))
 		}
@@ -324,6 +329,8 @@ func checkExpr(t h.TB, c ExprCase) {
 	switch c.Kind {
 	case "args":
 		src = "package p\n\nvar x = f(" + strings.Join(elems, ", ") + ")\n"
+	case "qualified":
+		src = "package p\n\nimport \"os\"\n\nvar x = f(" + strings.Join(elems, ", ") + ")\n"
 	case "elems":
 		src = "package p\n\nvar x = []T{" + strings.Join(elems, ", ") + "}\n"
 	case "keyed":
@@ -331,12 +338,26 @@ func checkExpr(t h.TB, c ExprCase) {
 	case "params":
 		src = "package p\n\nfunc f(" + strings.Join(elems, ", ") + ") {\n}\n"
 	}
-	f, err := decorator.Parse(src)
+	var f *dst.File
+	var err error
+	if c.Kind == "qualified" {
+		// qualified identifiers collapse to path-carrying identifiers under import management
+		f, err = decorator.NewDecoratorWithImports(token.NewFileSet(), "p", goast.New()).Parse(src)
+	} else {
+		f, err = decorator.Parse(src)
+	}
 	if err != nil {
 		t.Fatalf("harness: %v", err)
 	}
 	var list []dst.Node
 	switch c.Kind {
+	case "qualified":
+		for _, a := range f.Decls[1].(*dst.GenDecl).Specs[0].(*dst.ValueSpec).Values[0].(*dst.CallExpr).Args {
+			if id, ok := a.(*dst.Ident); !ok || id.Path != "os" {
+				t.Fatalf("harness: argument is not a path-carrying identifier")
+			}
+			list = append(list, a)
+		}
 	case "args":
 		for _, a := range f.Decls[0].(*dst.GenDecl).Specs[0].(*dst.ValueSpec).Values[0].(*dst.CallExpr).Args {
 			list = append(list, a)
@@ -355,13 +376,19 @@ func checkExpr(t h.TB, c ExprCase) {
 	}
 	list[len(list)-1].Decorations().After = dst.SpaceType(c.Spaces[c.N])
 	var buf bytes.Buffer
-	h.Guard(t, sub, c, func() { err = decorator.Fprint(&buf, f) })
+	h.Guard(t, sub, c, func() {
+		if c.Kind == "qualified" {
+			err = decorator.NewRestorerWithImports("p", guess.New()).Fprint(&buf, f)
+		} else {
+			err = decorator.Fprint(&buf, f)
+		}
+	})
 	if err != nil {
 		h.Fail(t, sub, c, "Fprint: %v", err)
 	}
 	// model: a line break before element i iff Spaces[i] >= NewLine (blank line iff EmptyLine);
 	// the closing delimiter on its own line iff Spaces[N] >= NewLine; gofmt adds the trailing comma.
-	open, closer := map[string]string{"args": "var x = f(", "elems": "var x = []T{", "keyed": "var x = T{", "params": "func f("}[c.Kind], map[string]string{"args": ")", "elems": "}", "keyed": "}", "params": ") {\n}"}[c.Kind]
+	open, closer := map[string]string{"qualified": "import \"os\"\n\nvar x = f(", "args": "var x = f(", "elems": "var x = []T{", "keyed": "var x = T{", "params": "func f("}[c.Kind], map[string]string{"qualified": ")", "args": ")", "elems": "}", "keyed": "}", "params": ") {\n}"}[c.Kind]
 	var sb strings.Builder
 	sb.WriteString("package p\n\n" + open)
 	for i, e := range elems {
@@ -387,7 +414,7 @@ func checkExpr(t h.TB, c ExprCase) {
 }
 
 func genExpr(t *rapid.T) (ExprCase, bool) {
-	c := ExprCase{Kind: []string{"args", "elems", "keyed", "params"}[rapid.IntRange(0, 3).Draw(t, "kind")], N: rapid.IntRange(1, 5).Draw(t, "n")}
+	c := ExprCase{Kind: []string{"args", "elems", "keyed", "params", "qualified"}[rapid.IntRange(0, 4).Draw(t, "kind")], N: rapid.IntRange(1, 5).Draw(t, "n")}
 	allNL := rapid.Bool().Draw(t, "allnewline")
 	for i := 0; i <= c.N; i++ {
 		if allNL {
